@@ -284,6 +284,9 @@ func runC20(p *Program, r *Result) {
 		}
 		r.Check(bad == "" && len(e.Globals) == 0, fn.String(), "writes", "", "only freshly allocated memory is written (plus the label sort of R20.5)", "shared memory is written: "+bad)
 	}
+	r.Rule("R20.5", "no package-level state behind Encrypt, Decrypt and the STREAM constructors: concurrent operations share nothing mutable", 1)
+	checkNoPackageState(p, r, []*ssa.Function{r.anchor(pkgAge, "", "Encrypt"), r.anchor(pkgAge, "", "Decrypt"), r.anchor(pkgStream, "", "NewWriter"), r.anchor(pkgStream, "", "NewReader"),
+		r.anchor(pkgStream, "Writer", "Write"), r.anchor(pkgStream, "Writer", "Close"), r.anchor(pkgStream, "Reader", "Read")}, nil)
 }
 
 // readOnlyExt: further external callees that only read their arguments.
@@ -325,4 +328,72 @@ func (p *Program) freshFns() map[*ssa.Function]bool {
 		}
 	}
 	return m
+}
+
+// checkNoPackageState: the functions reachable (through static calls within the module, depth 4)
+// from roots touch no package-level *state*: a package variable they mention is either written
+// exactly once by the package initialiser and read-only afterwards (error sentinels, compiled
+// patterns, encodings, tables), or a test hook that only _test files assign. Anything else — a
+// cache, a sync.Pool, a counter — makes one call depend on, or interfere with, another.
+func checkNoPackageState(p *Program, r *Result, roots []*ssa.Function, hooks map[string]bool) {
+	seen := map[*ssa.Function]bool{}
+	type item struct {
+		fn *ssa.Function
+		d  int
+	}
+	var work []item
+	for _, f := range roots {
+		if f != nil {
+			work = append(work, item{f, 0})
+		}
+	}
+	n := 0
+	for len(work) > 0 {
+		it := work[0]
+		work = work[1:]
+		if seen[it.fn] || it.fn.Blocks == nil {
+			continue
+		}
+		seen[it.fn] = true
+		n++
+		bad := ""
+		for _, b := range it.fn.Blocks {
+			for _, in := range b.Instrs {
+				for _, op := range in.Operands(nil) {
+					g, ok := (*op).(*ssa.Global)
+					if !ok || g.Pkg == nil {
+						continue
+					}
+					pp := g.Pkg.Pkg.Path()
+					if pp != modPath && !strings.HasPrefix(pp, modPath+"/") {
+						continue
+					}
+					if hooks[g.String()] || strings.HasPrefix(g.Name(), "testOnly") || strings.HasPrefix(g.Name(), "init$guard") {
+						continue
+					}
+					ts := typeString(g.Type())
+					if strings.Contains(ts, "sync.") {
+						bad = "uses the package-level " + g.Name() + " (" + strings.TrimPrefix(ts, "*") + ") at " + r.pos(in)
+						continue
+					}
+					if st, isStore := in.(*ssa.Store); isStore && st.Addr == ssa.Value(g) && it.fn.Name() != "init" {
+						bad = "assigns the package variable " + g.Name() + " at " + r.pos(in)
+						continue
+					}
+					if p.globalInit(g) == nil {
+						bad = "reads the package variable " + g.Name() + ", which is not written exactly once by the initialiser, at " + r.pos(in)
+					}
+				}
+				if c, ok := in.(ssa.CallInstruction); ok && it.d < 4 {
+					if callee := staticCallee(c.Common()); callee != nil && p.inModule(callee) {
+						work = append(work, item{callee, it.d + 1})
+					}
+				}
+			}
+		}
+		if bad != "" {
+			r.Bad(it.fn.String(), "package-state", "", "the function "+bad+": calls are no longer independent of each other")
+		}
+	}
+	r.OK("library", "package-state", "", itoa(n)+" functions reachable from the entry points: package variables are initialise-once tables and test hooks only")
 }
